@@ -18,7 +18,7 @@ EXPLANATION = (
     "stage). R2 removal is a set difference: row-set abstract interpretation of the unique-of-stack idiom (first-occurrence semantics of "
     "return_index: with the candidates stacked first, keeping indices < len(candidates) keeps all of them). R3 only filtered rows reach the "
     "target: every logger-call argument carries the filter's tags or is a point slot; the only no-record evaluations are the noise test "
-    "(guard level < 1) and the final samples (guard level > 0). Decides the filter's structure, not floating-point coincidences within tol."
+    "(guard level < 1) and the final samples (guard level > 0). Rows must carry the box, removal and constraint stages. Decides the filter's structure, not floating-point coincidences within tol."
 )
 
 
